@@ -41,6 +41,24 @@ import (
 )
 
 func registry() []*codec {
+	out := registryAll()
+	// development aid: C17_ONLY=substr,substr restricts the run to matching codecs
+	if only := os.Getenv("C17_ONLY"); only != "" {
+		var sel []*codec
+		for _, c := range out {
+			for _, s := range strings.Split(only, ",") {
+				if strings.Contains(c.name, s) {
+					sel = append(sel, c)
+					break
+				}
+			}
+		}
+		return sel
+	}
+	return out
+}
+
+func registryAll() []*codec {
 	var out []*codec
 	out = append(out, ioCodecs()...)
 	out = append(out, keyCodecs()...)
@@ -55,24 +73,25 @@ func registry() []*codec {
 	out = append(out, mptCodecs()...)
 	out = append(out, nefCodecs()...)
 	out = append(out, manifestCodecs()...)
+	out = append(out, extraCodecs()...)
+	// values with count / length fields on the var-int boundaries, appended to
+	// the generators (existing value indices stay)
+	extras := boundaryExtras()
+	for _, c := range out {
+		if ex := extras[c.name]; ex != nil {
+			g := c.gen
+			c.gen = func(th bool) []any { return append(g(th), ex(th)...) }
+			delete(extras, c.name)
+		}
+	}
+	for n := range extras {
+		panic("boundaryExtras: no codec " + n)
+	}
 	// the JSON decoders of the same types
 	for _, c := range out {
 		if c.jenc != nil && c.jdec != nil {
 			out = append(out, jsonCodecOf(c))
 		}
-	}
-	// development aid: C17_ONLY=substr,substr restricts the run to matching codecs
-	if only := os.Getenv("C17_ONLY"); only != "" {
-		var sel []*codec
-		for _, c := range out {
-			for _, s := range strings.Split(only, ",") {
-				if strings.Contains(c.name, s) {
-					sel = append(sel, c)
-					break
-				}
-			}
-		}
-		return sel
 	}
 	return out
 }
@@ -1084,6 +1103,12 @@ func TestCheck(t *testing.T) {
 	reg := registry()
 	var evals, nontrivial vk.Counter
 	report := func(f finding) { r.Violation(f.Key, f) }
+	// development aid: C17_PHASE=ext runs only the extension phases (E..H)
+	devPhase := os.Getenv("C17_PHASE")
+	ext := runExtPhases(r, th)
+	if devPhase == "ext" {
+		r.Finish(map[string]any{"evaluations": ext.evals, "distinct_nontrivial": ext.nontrivial, "rule": "development run of the extension phases", "extension": ext.info}, nil)
+	}
 
 	// ---- phase A: O-rt ----
 	type vjob struct {
@@ -1295,8 +1320,9 @@ func TestCheck(t *testing.T) {
 		outc[k] = v
 	}
 	r.Finish(map[string]any{
-		"evaluations":                        int(evals.Get()) + pathEvals + int(cEvals) + dagEvals,
-		"distinct_nontrivial":                int(nontrivial.Get()) + pathNontrivial + len(distinct) + dagNontrivial,
+		"evaluations":                        int(evals.Get()) + pathEvals + int(cEvals) + dagEvals + ext.evals,
+		"distinct_nontrivial":                int(nontrivial.Get()) + pathNontrivial + len(distinct) + dagNontrivial + ext.nontrivial,
+		"extension_families":                 ext.info,
 		"item_graphs":                        dagInfo,
 		"item_graph_evaluations":             dagEvals,
 		"rule":                               "a case is one oracle evaluation: a generated value through encode/decode/JSON/size/hash, one (content, arrival path) pair, one (item graph, limit or entry point) pair, or one byte string fed to one decoder; non-trivial = a generated value with a distinct non-empty encoding, a path case whose content decodes on at least two paths, an item graph in which some object is referenced more than once (compared with its un-shared copy under every limit), or a distinct byte string (per decoder) that the decoder ACCEPTS so that the re-encode/re-decode/hash/size oracle is evaluated (rejected strings only exercise the no-panic/allocation oracle)",
